@@ -243,3 +243,55 @@ func (e *env) parentTypeOf(o *Op, path []int) string {
 	}
 	return cur
 }
+
+// build plans op once (NewDataSource) over the given transport.
+func (e *env) build(op *Op, tr grpcdatasource.RPCTransport) (ds *grpcdatasource.DataSource, res runResult) {
+	defer func() {
+		if r := recover(); r != nil {
+			st := string(debug.Stack())
+			res.Panic = fmt.Sprint(r)
+			res.Site = panicSite(st)
+			ds = nil
+		}
+	}()
+	doc, report := astparser.ParseGraphqlDocumentString(op.String())
+	if report.HasErrors() {
+		panic("c20 harness: generated operation does not parse: " + op.String() + ": " + report.Error())
+	}
+	d, err := grpcdatasource.NewDataSource(tr, grpcdatasource.DataSourceConfig{
+		Operation:         &doc,
+		Definition:        &e.def,
+		SubgraphName:      "Products",
+		Compiler:          e.compiler,
+		Mapping:           e.mapping,
+		FederationConfigs: e.fedConfigs(op),
+	})
+	if err != nil {
+		res.PlanErr = err.Error()
+		return nil, res
+	}
+	return d, res
+}
+
+// loadOn performs one Load of op with the given variables on an existing instance.
+func (e *env) loadOn(ctx context.Context, ds *grpcdatasource.DataSource, op *Op, vars json.RawMessage) (res runResult) {
+	defer func() {
+		if r := recover(); r != nil {
+			st := string(debug.Stack())
+			res.Panic = fmt.Sprint(r)
+			res.Site = panicSite(st)
+		}
+	}()
+	qb, _ := json.Marshal(op.String())
+	if len(vars) == 0 {
+		vars = json.RawMessage("{}")
+	}
+	input := []byte(`{"query":` + string(qb) + `,"body":{"variables":` + string(vars) + `}}`)
+	out, err := ds.Load(ctx, nil, input)
+	if err != nil {
+		res.LoadErr = err.Error()
+		return res
+	}
+	res.Resp = append([]byte(nil), out...)
+	return res
+}
